@@ -28,6 +28,7 @@ package c12
 import (
 	"bytes"
 	"fmt"
+	"reflect"
 	"strconv"
 	"strings"
 
@@ -127,6 +128,15 @@ func serEqual(a, b *protoserialization.KeySerialization) bool {
 
 type prefixer interface{ OutputPrefix() []byte }
 
+// describeParams names the parameters type and, for JWT parameters, the KID strategy.
+func describeParams(p key.Parameters) string {
+	d := fmt.Sprintf("%T", p)
+	if m := reflect.ValueOf(p).MethodByName("KIDStrategy"); m.IsValid() && m.Type().NumIn() == 0 && m.Type().NumOut() == 1 {
+		d += fmt.Sprintf(" kid-strategy=%v", m.Call(nil)[0].Interface())
+	}
+	return d
+}
+
 type privateKey interface {
 	PublicKey() (key.Key, error)
 }
@@ -177,7 +187,7 @@ func roundTripKey(k key.Key) (s1, ps *protoserialization.KeySerialization, fail 
 			return s1, nil, "ParseParameters failed on SerializeParameters output: " + err.Error()
 		}
 		if !p2.Equal(p) || !p.Equal(p2) {
-			return s1, nil, "parse(serialize(parameters)) not Equal"
+			return s1, nil, "parse(serialize(parameters)) not Equal for " + describeParams(p)
 		}
 		t2, err := protoserialization.SerializeParameters(p2)
 		if err != nil || !proto.Equal(t1, t2) || !bytes.Equal(detMarshal(t1), detMarshal(t2)) {
